@@ -169,7 +169,37 @@ def run(prog: Program, rep: Report, tier: str):
                         f"emptying the shared one in place: every other holder of the cache (reader processes that received "
                         f"the proxy earlier) keeps serving the entries from before the clear", line=da.line(rebinds[0]),
                         clause="C19.2")
-            rep.decide(bool(clears) and da.cfg.must_pass(clears), "G8.dispose-clears", d, "clear",
+            # an exit taken only when the container is known to be empty (a conjunct 'len(cache) == 0' / 'not cache' dominates
+            # it) skips a no-op: such exits count as cleared
+            def _empty_fact(e_, pol_):
+                if isinstance(e_, ast.Compare) and len(e_.ops) == 1 and isinstance(e_.ops[0], ast.Eq if pol_ else ast.NotEq):
+                    a_, b_ = e_.left, e_.comparators[0]
+                    if isinstance(a_, ast.Constant):
+                        a_, b_ = b_, a_
+                    return isinstance(b_, ast.Constant) and b_.value == 0 and type(b_.value) is int and isinstance(a_, ast.Call) \
+                        and getattr(a_.func, "id", "") == "len" and len(a_.args) == 1 and _is_cache(a_.args[0])
+                if not pol_:
+                    if isinstance(e_, ast.Call) and getattr(e_.func, "id", "") == "len" and len(e_.args) == 1:
+                        return _is_cache(e_.args[0])
+                    return _is_cache(e_)
+                return False
+
+            def _is_cache(x_):
+                return isinstance(x_, ast.Attribute) and isinstance(x_.value, ast.Name) and x_.value.id == da.self_name \
+                    and x_.attr == cache_attr
+            writes_before = {n for n in da.cfg.nodes for x_ in da.cfg.walk_node(n)
+                             if isinstance(x_, (ast.Subscript, ast.Call)) and any(_is_cache(y_) for y_ in ast.walk(x_))
+                             and (isinstance(x_, ast.Subscript) and isinstance(x_.ctx, (ast.Store, ast.Del)) or
+                                  isinstance(x_, ast.Call) and isinstance(x_.func, ast.Attribute) and _is_cache(x_.func.value)
+                                  and x_.func.attr not in ("clear", "keys", "values", "items", "get", "copy", "__len__", "__contains__"))}
+            noop_exits = set()
+            if not writes_before:
+                for n in da.cfg.nodes:
+                    nd_ = da.cfg.nodes[n]
+                    if nd_.kind == "stmt" and isinstance(nd_.ast, ast.Return) and any(
+                            _empty_fact(e_, pol_) for e_, pol_, _t, _n in da.cond_parts_at(n)):
+                        noop_exits.add(n)
+            rep.decide(bool(clears) and da.cfg.must_pass(clears | noop_exits), "G8.dispose-clears", d, "clear",
                        f"self.{cache_attr} is emptied on every path", f"dispose() does not empty self.{cache_attr} on every "
                        f"path", clause="C19.2")
         # per-instance container
